@@ -158,6 +158,17 @@ def c04_2(ctx):
         if N(r_.value) not in forms:
             ctx.fail(fn, r_, '_ymd returns `%s`: every exit must be datetime(y, m, 1) + (d-1) days, the only form that rolls an overflowing day into the next month with the real calendar (centuries included)' % U(r_.value),
                      witness='dt(2100, 2, 29) is 1 March 2100 (2100 is not a leap year)')
+    # closed set of definitions: between entry and the exit y, m, d are only (1) swapped by the year/day heuristic, (2) normalised by ym,
+    # (3) d turned from a whole float into an int. Anything else that rebinds them (a hand-made month-length / leap-year roll ...) competes
+    # with the calendar arithmetic of `datetime(y, m, 1) + (d - 1) * DAY`
+    allowed = {N(ast.parse(x).body[0]) for x in ('%s, %s = %s, %s' % (y, d, d, y), '%s, %s = ym(%s, %s)' % (y, m, y, m), '%s = int(%s) if is_float(%s) and int(%s) == %s else %s' % (d, d, d, d, d, d),
+                                                   '%s = int(%s) if is_float(%s) and int(%s) == %s else %s' % (y, y, y, y, y, y), '%s = month(%s)' % (m, m))}
+    for st in ast.walk(fn.node):
+        if isinstance(st, (ast.Assign, ast.AugAssign, ast.AnnAssign)) and any(isinstance(t, ast.Name) and t.id in (y, m, d) and isinstance(t.ctx, ast.Store) for t in ast.walk(st)):
+            ctx.count(1, fn.where(st))
+            if N(st) not in allowed:
+                ctx.fail(fn, st, '_ymd rebinds its year / month / day with `%s`: the only conversions are the year-day swap, ym(y, m) and whole-float to int; the overflow of the day is left to datetime(y, m, 1) + (d - 1) * DAY' % U(st)[:90],
+                         witness='dt(2100, 1, 59) is 28 February 2100; dt(1900, 1, 60) is 1 March 1900')
     ymc = [s for s in fn.body if isinstance(s, ast.Assign) and isinstance(s.value, ast.Call) and call_name(s.value) == 'ym']
     if not ymc or [U(a) for a in ymc[0].value.args] != [y, m] or N(ymc[0].targets[0]) != '(%s, %s)' % (y, m):
         ctx.fail(fn, fn.node, '_ymd does not normalise (y, m) through ym')
